@@ -145,6 +145,40 @@ def ht(hist, B):
     return torch.tensor(hist, dtype=torch.long)
 
 
+LAYOUTS = ["contig", "offset", "cols", "transposed", "rowstep", "colstep", "cols+offset"]
+
+
+def as_layout(h, layout):
+    """the same logical (T, B) history as a view with another memory layout (what a caller holding a slice of a
+    larger time-major buffer, a pruned beam or a batch-first tensor passes in)"""
+    T, B = h.shape
+    if layout in (None, "contig"):
+        return h
+    if layout == "offset":
+        big = torch.full((T + 3, B), -7, dtype=h.dtype)
+        big[3:] = h
+        return big[3:]
+    if layout == "cols":
+        wide = torch.full((T, B + 3), -7, dtype=h.dtype)
+        wide[:, :B] = h
+        return wide[:, :B]
+    if layout == "cols+offset":
+        wide = torch.full((T + 2, B + 3), -7, dtype=h.dtype)
+        wide[2:, 2:B + 2] = h
+        return wide[2:, 2:B + 2]
+    if layout == "transposed":
+        return h.t().contiguous().t()
+    if layout == "rowstep":
+        big = torch.full((2 * T + 1, B), -7, dtype=h.dtype)
+        big[1::2] = h
+        return big[1::2]
+    if layout == "colstep":
+        wide = torch.full((T, 2 * B), -7, dtype=h.dtype)
+        wide[:, ::2] = h
+        return wide[:, ::2]
+    raise ValueError(layout)
+
+
 def enc_t(t):
     return [[enc(x) for x in row] for row in t.tolist()] if t.dim() == 2 else \
         [[[enc(x) for x in row] for row in mat] for mat in t.tolist()]
@@ -152,7 +186,7 @@ def enc_t(t):
 
 def run_query(lm, q):
     """canonical implementation output of one query, or 'exc:<kind>'"""
-    h = ht(q["hist"], q["B"])
+    h = as_layout(ht(q["hist"], q["B"]), q.get("layout"))
     try:
         if q.get("chunk") is not None:
             return enc_t(lm.calc_full_log_probs_chunked(h, dict(), q["chunk"]))
@@ -214,6 +248,15 @@ def metamorphic(case, lm, lm2):
                     bad.append(("per-element idx differs from the all-positions result", dict(hist=q["hist"], B=B, idx=ix)))
             if lm2 is not None and not torch.equal(lm2(h), full):
                 bad.append(("reloaded model differs", dict(hist=q["hist"], B=B)))
+            # the result is a function of the history's contents, not of its memory layout
+            for lay in LAYOUTS[1:]:
+                hv = as_layout(h, lay)
+                if not torch.equal(lm(hv), full):
+                    bad.append(("history passed as a %s view differs from the contiguous one" % lay,
+                                dict(hist=q["hist"], B=B, layout=lay)))
+                elif T and not torch.equal(lm(hv, idx=T)[0], full[T]):
+                    bad.append(("idx=%d on a %s view differs from the contiguous one" % (T, lay),
+                                dict(hist=q["hist"], B=B, layout=lay)))
         except Exception as e:  # noqa: BLE001
             bad.append(("exception " + exc_kind(e) + ": " + str(e)[:200], dict(hist=q["hist"], B=B)))
     return bad
@@ -277,6 +320,8 @@ def gen_queries(rng, case, nq=4):
         else:  # the documented failure modes of idx / chunk_size
             q = rng.choice([dict(hist=hist, B=B, idx=T + 1), dict(hist=hist, B=B, idx=-T - 2),
                             dict(hist=hist, B=B, idx=[0] * (B + 1)), dict(hist=hist, B=B, idx=None, chunk=0)])
+        if T and rng.random() < 0.4:
+            q["layout"] = rng.choice(LAYOUTS[1:])
         qs.append(q)
     return qs
 
